@@ -429,6 +429,11 @@ namespace details {
 				std::streamsize content_size = pptr() - pbase();
 				if(size_t(size) > output_.size())
 					output_.resize(size);
+				if(content_size > size) {
+					// never shrink below what is already buffered,
+					// in this mode the buffer grows on demand anyway
+					return this;
+				}
 				do_setp();
 				pbump(content_size);
 				return this;
